@@ -126,6 +126,13 @@ CLAIMED["C14"] = {
     "technique": "contract-based deductive verification: frame conditions and whole-view postconditions on every method from an arbitrary symbolic state, attribute read/write tracking, pairwise mutator induction step",
 }
 
+CLAIMED["C15"] = {
+    "text": "NARROW by design: over the reals unit equivariance is a corollary of the exactness contracts C03 / C04 / C06 (which hold for all inputs) plus the correspondence lemmas proved here for symbolic s, c > 0: T'(x/s) = c T(x), x in box <=> x/s in box', T(x)=B <=> T'(x/s)=B', weighted error' = c^2 weighted error; and, on the real code, lsq_linear run on both twins states corresponding problems (code-feasible'(y/s) <=> code-feasible(y), code-objective'(y/s) = c^2 code-objective(y)) and returns predictions c times the model capture -- i.e. the formulation contains no un-scaled constant.",
+    "design_ref": "DESIGN.md section 6 C15 and section 8",
+    "note": A_COMMON + " THE TOLERANCE-DRIVEN PART OF THE PROPERTY (solver default tolerances, the isclose threshold, exact float comparisons applied to the user's numbers across s, c in [1e-4, 1e4]) IS NOT DECIDED by any contract over the reals; a bounded native stand-in replays well-scaled twins with the property's tolerances and is labelled bounded. The known findings of C03 (NNLS tolerance) and C06 (float vertex rejection) are exactly of this kind.",
+    "technique": "contract-based deductive verification: relational (twin) run of the real fitting code + correspondence lemmas over the spec functions; equivariance of membership / ranges derived from the exactness contracts",
+}
+
 NOT_APPLICABLE = {}
 
 FIX_COMMITS = ["b2d156a (np.trapz -> trapezoid)", "1caec1a (negative fit targets no longer declared positive cvxpy parameters)", "f3b37fa (batched_iteration bs > n)", "b98cd56 (poisson baseline tiling)", "d30d941 (minimize .copy())", "35d91a0 (minimize reshape order)", "b90b02d (minimize padded slack)", "7019c2d (excitation baseline)", "3901923 (excitation per-sample)", "b370f4e (adaptive default solver)", "cef6319 (gamut apex = capture at lb)", "f990a92 (hull_dist_scaling forwards relative)", "3b5a1c6 (dichromat chromatic membership)", "be7bf4f (math.factorial in sample_in_hull)"]
